@@ -67,6 +67,29 @@ def isomapEmbedModel (δ : Nat → Nat → K) (N k : Nat) (check : Bool) (d : Na
                     (fun j => sqrtO (clamp0 ((solver (isomapPre (geoMat F))).2 j))) }
       else .error .infiniteGeodesic
 
+/-- **the two transcriptions of the statements before the eigensolver agree**: C04's `isomapPre` (generated statement
+    list, `Model/IsomapPre.lean`) and C05's `isomapPreOfGeodesics` (`Model/Mds.lean`) are the same function — so C05's
+    theorems about the latter (`isomap_full_k_eq_mds`) apply to the composed model. -/
+theorem isomapPre_eq_isomapPreOfGeodesics {n : Nat} (G : Mat n n K) : isomapPre G = isomapPreOfGeodesics G := by
+  unfold isomapPre
+  rw [isomapSteps_as_written]
+  funext i j
+  simp only [List.foldl, applyStep, isomapPreOfGeodesics, scale, negHalf]
+  change TapkeeVerif.centerMatrix (fun i j => (G i j * G i j + G j i * G j i) / ((2 : Nat) : K)) i j * _ = _
+  generalize TapkeeVerif.centerMatrix (fun i j => (G i j * G i j + G j i * G j i) / ((2 : Nat) : K)) i j = c
+  push_cast
+  ring
+
+/-- C04 `backends_agree`, for any two queue disciplines and tie-breaking streams -/
+theorem allPairs_queue_independent {P : Dijkstra.Problem K} {k : Nat} (hwf : Dijkstra.WF P k)
+    (hw : ∀ a b, 0 ≤ P.w a b) (hk : P.k? = some k) (disc disc' : Dijkstra.Disc) (ch ch' : Nat → Nat → Nat) :
+    Dijkstra.allPairs P disc ch = Dijkstra.allPairs P disc' ch' := by
+  cases disc <;> cases disc'
+  · exact (Dijkstra.backends_agree hwf hw hk ch ch').trans (Dijkstra.backends_agree hwf hw hk ch' ch').symm
+  · exact Dijkstra.backends_agree hwf hw hk ch ch'
+  · exact (Dijkstra.backends_agree hwf hw hk ch' ch).symm
+  · exact (Dijkstra.backends_agree hwf hw hk ch ch).symm.trans (Dijkstra.backends_agree hwf hw hk ch ch')
+
 /-- **isomap_end_to_end.**  For every `N`, every non-negative callback `δ`, every requested `1 ≤ k ≤ N-1` (the
     validated range), `check_connectivity` on, every exact search (C02), both queue disciplines, every tie-breaking
     stream, every solver outcome and every `sqrt`:
@@ -78,7 +101,7 @@ def isomapEmbedModel (δ : Nat → Nat → K) (N k : Nat) (check : Bool) (d : Na
     3. Dijkstra returned `o.geo`, every entry is finite, and `o.G i j` is the length of a shortest directed walk
        `i → j` in that graph (`Dijkstra.IsGeodesic`, the all-pairs shortest-path specification);
     4. the matrix handed to the solver — and what the dense solver decomposes after its own symmetrisation — is
-       `−½·J·avg(G²)·J` (`cmds (avgSquares G)`);
+       `−½·J·avg(G²)·J` (`cmds (avgSquares G)`); it is also C05's model `isomapPreOfGeodesics G` of the same statements;
     5. `Y = V·diag (sqrt (max λ 0))` for the solver's `(V, λ)`; and whenever `(V, λ)` meets the solver contract
        `IsTopEig` on that matrix and `sqrtO` squares back on the clamped eigenvalues, the columns of `Y` are
        orthogonal with squared norms `max λ_j 0` and `Y·Yᵀ` is the best PSD approximation of rank `≤ d` of
@@ -102,7 +125,8 @@ theorem isomap_end_to_end (δ : Nat → Nat → K) {N : Nat} (hN : 0 < N) {k : N
         ∀ i j : Fin N, (∃ hi : i.1 < o.geo.length, (o.geo[i.1])[j.1] = some (o.G i j)) ∧
           Dijkstra.IsGeodesic (problemOf o.found.graph N δ) o.found.k i.1 j.1 (some (o.G i j))) ∧
       -- 4. classical MDS matrix
-      (o.B = cmds (avgSquares o.G) ∧ denseSolverInput o.B = cmds (avgSquares o.G)) ∧
+      (o.B = cmds (avgSquares o.G) ∧ denseSolverInput o.B = cmds (avgSquares o.G) ∧
+        o.B = isomapPreOfGeodesics o.G) ∧
       -- 5. spectral post-processing
       ((o.V, o.lam) = solver o.B ∧ o.Y = post o.V (fun j => sqrtO (clamp0 (o.lam j))) ∧
         (IsTopEig (Mat.toM o.B) (Mat.toM o.V) o.lam →
@@ -155,7 +179,7 @@ theorem isomap_end_to_end (δ : Nat → Nat → K) {N : Nat} (hN : 0 < N) {k : N
     obtain ⟨hi, hEq⟩ := geoMat_spec hfinB i j
     refine ⟨⟨hi, hEq⟩, ?_⟩
     exact (congrArg (Dijkstra.IsGeodesic (problemOf f.graph N δ) f.k i.1 j.1) hEq).mp (hFgeo i.1 j.1 hi j.2)
-  · exact ⟨isomapPre_eq_cmds hn _, isomap_is_cmds hn _⟩
+  · exact ⟨isomapPre_eq_cmds hn _, isomap_is_cmds hn _, isomapPre_eq_isomapPreOfGeodesics _⟩
   · refine ⟨rfl, rfl, ?_⟩
     intro htop hs
     exact ⟨(C05.mds_gram _ _ _ _ htop.toIsEigSystem hs).1,
@@ -175,6 +199,61 @@ theorem isomap_end_to_end_brute (δ : Nat → Nat → K) {N : Nat} (hN : 0 < N) 
     isomap_end_to_end δ hN hk hkN d hw (bruteSearch δ N) (bruteSearch_length δ N)
       (fun k hk' => bruteSearch_exact hN hself k hk') disc ch solver sqrtO
   exact ⟨o, ho, h3, h1, h2, h4, fun i j => (h5 i j).2, h6, h7⟩
+
+/-- **the embedding does not depend on the priority queue**: the composed model returns the same value for both queue
+    disciplines and all tie-breaking streams (C04 `backends_agree` lifted through the composition). -/
+theorem isomap_queue_independent (δ : Nat → Nat → K) {N : Nat} (hN : 0 < N) {k : Nat} (hk : 1 ≤ k)
+    (d : Nat) (hw : ∀ a b, 0 ≤ δ a b)
+    (search : Nat → Graph) (hlen : ∀ k, (search k).length = N)
+    (hexact : ∀ k, k ≤ N - 1 → ∀ u (hu : u < (search k).length), IsExactKnn δ (List.range N) k u (search k)[u])
+    (disc disc' : Dijkstra.Disc) (ch ch' : Nat → Nat → Nat) (solver : Mat N N K → Mat N d K × Vec d K)
+    (sqrtO : K → K) :
+    isomapEmbedModel δ N k true d search disc ch solver sqrtO
+      = isomapEmbedModel δ N k true d search disc' ch' solver sqrtO := by
+  obtain ⟨f, hf⟩ := findNeighbors_terminates δ search hN hk hlen hexact
+  obtain ⟨j, hkj, hgraph, -⟩ := k_raised_only_if_needed search hN _ k f hf
+  have hk'le : f.k ≤ N - 1 := by rw [hkj]; exact Nat.min_le_right _ _
+  have huni : Uniform f.graph N f.k :=
+    uniform_of_exact (by rw [hgraph]; exact hlen _) (by rw [hgraph]; exact hexact _ hk'le)
+  unfold isomapEmbedModel
+  simp only [hf]
+  rw [allPairs_queue_independent (problemOf_wf huni δ) hw (problemOf_k? huni hN δ) disc disc' ch ch']
+
+/-- **Isomap with `k = N − 1` is MDS, end to end** (C05 `isomap_full_k_eq_mds` through the composition): requested
+    `k = N − 1`, `δ` a symmetric metric (zero diagonal, triangle inequality): the composed model hands the eigensolver
+    exactly the matrix `mdsPre δ` that the MDS model hands it.  The interface that had to meet: C05 wants "every other
+    sample is a neighbour" as `Dijkstra.Edge`s; C02 gives `N − 1` distinct other samples — a counting argument. -/
+theorem isomap_full_k_is_mds_end_to_end (δ : Nat → Nat → K) {N : Nat} (hN2 : 2 ≤ N) (d : Nat)
+    (hw : ∀ a b, 0 ≤ δ a b) (hdiag : ∀ i, δ i i = 0) (htri : ∀ i j l, δ i l ≤ δ i j + δ j l)
+    (hsym : ∀ a b, δ a b = δ b a)
+    (search : Nat → Graph) (hlen : ∀ k, (search k).length = N)
+    (hexact : ∀ k, k ≤ N - 1 → ∀ u (hu : u < (search k).length), IsExactKnn δ (List.range N) k u (search k)[u])
+    (disc : Dijkstra.Disc) (ch : Nat → Nat → Nat) (solver : Mat N N K → Mat N d K × Vec d K) (sqrtO : K → K) :
+    ∃ o, isomapEmbedModel δ N (N - 1) true d search disc ch solver sqrtO = .ok o ∧ o.found.k = N - 1 ∧
+      o.B = mdsPre (fun i j : Fin N => δ i.1 j.1) := by
+  have hN : 0 < N := by omega
+  obtain ⟨o, ho, ⟨j, hkj, hkle, -⟩, ⟨-, hglen, hex⟩, ⟨hF, hG⟩, ⟨-, -, hB⟩, -⟩ :=
+    isomap_end_to_end δ hN (k := N - 1) (by omega) (Nat.le_refl _) d hw search hlen hexact disc ch solver sqrtO
+  have hk' : o.found.k = N - 1 := le_antisymm (by rw [hkj]; exact Nat.min_le_right _ _) hkle
+  have huni : Uniform o.found.graph N o.found.k := uniform_of_exact hglen hex
+  have hfull : ∀ s v, s < N → v < N → s ≠ v → Dijkstra.Edge (problemOf o.found.graph N δ) o.found.k s v := by
+    intro s v hs hv hsv
+    have hsl : s < o.found.graph.length := by rw [hglen]; exact hs
+    obtain ⟨h1, h2, h3, h4, -⟩ := hex s hsl
+    have hsub : o.found.graph[s] ⊆ (List.range N).erase s := fun w hw =>
+      (List.mem_erase_of_ne (by rintro rfl; exact h3 hw)).2 (h4 w hw)
+    have hperm := (List.subperm_of_subset h2 hsub).perm_of_length_le
+      (by rw [List.length_erase_of_mem (List.mem_range.2 hs), List.length_range, h1, hk'])
+    have hmem : v ∈ o.found.graph[s] :=
+      hperm.mem_iff.2 ((List.mem_erase_of_ne (Ne.symm hsv)).2 (List.mem_range.2 hv))
+    exact dijkstraEdge_of_edge huni δ ⟨_, List.getElem?_eq_getElem hsl, hmem⟩
+  have hkq := problemOf_k? huni hN δ
+  obtain ⟨hFlen, hrows⟩ := Dijkstra.allPairs_rows hkq hF
+  refine ⟨o, ho, hk', ?_⟩
+  rw [hB]
+  exact C05.isomap_full_k_eq_mds (P := problemOf o.found.graph N δ) hw ⟨hdiag, htri⟩ hsym hfull
+    (disc := disc) (ch := ch) (fun s => o.geo[s.1]'(lt_of_lt_of_eq s.2 hFlen.symm))
+    (fun s => hrows s.1 s.2 _) o.G (fun i j => (hG i j).1.2)
 
 /-! ### Non-vacuity: a concrete instance meets every hypothesis, including the solver and `sqrt` contracts of conjunct 5
 
@@ -242,4 +321,18 @@ example : ∃ o, isomapEmbedModel exδN 4 1 true 1 (bruteSearch exδN 4) .lazy (
   have := (hopt htop hs).1
   rw [this]
   congr 1
+theorem exδN_metric : (∀ i, exδN i i = 0) ∧ (∀ i j l, exδN i l ≤ exδN i j + exδN j l) ∧ ∀ a b, exδN a b = exδN b a := by
+  refine ⟨fun i => by simp [exδN], fun i j l => ?_, fun a b => ?_⟩
+  · unfold exδN
+    by_cases hi : i < 2 <;> by_cases hj : j < 2 <;> by_cases hl : l < 2 <;> simp [hi, hj, hl]
+  · unfold exδN
+    by_cases ha : a < 2 <;> by_cases hb : b < 2 <;> simp [ha, hb]
+
+/-- the instance meets the hypotheses of `isomap_full_k_is_mds_end_to_end` (requested `k = 3 = N − 1`) -/
+example : ∃ o, isomapEmbedModel exδN 4 (4 - 1) true 1 (bruteSearch exδN 4) .indexed (fun _ _ => 0) exSolver exSqrt = .ok o ∧
+    o.found.k = 4 - 1 ∧ o.B = mdsPre (fun i j : Fin 4 => exδN i.1 j.1) :=
+  isomap_full_k_is_mds_end_to_end exδN (by decide) 1 exδN_nonneg exδN_metric.1 exδN_metric.2.1 exδN_metric.2.2
+    (bruteSearch exδN 4) (bruteSearch_length exδN 4) (fun k hk => bruteSearch_exact (by decide) exδN_self k hk)
+    .indexed (fun _ _ => 0) exSolver exSqrt
+
 end TapkeeVerif.IsomapCompose
